@@ -996,7 +996,7 @@ fn main() {
     hcommon::quiet_panics();
     let mut rng = Rng::new(args.seed);
     let mut out = Out::new(&args.out);
-    let n_models = if args.thorough { 6000 } else { 500 };
+    let n_models = if args.thorough { 25000 } else { 1000 };
     let one_thread = Arc::new(ThreadPool::with_num_threads(1));
     let mut total_runs = 0u64;
     let mut xpool_diff = 0u64;
